@@ -1,10 +1,29 @@
 /-
   EG.Driver.Poly — model side of the `poly.*` correspondence streams (harness/src/m_poly.rs).
 -/
-import EG.Driver.Util
+import EG.Driver.Line
+import EG.Model.Polyline
 namespace EG.Driver
 open EG
 
-def handlePoly (_stream : String) (_t : Toks) : Option String := none
+def Toks.pts : Nat → Toks → List Pt × Toks
+  | 0, t => ([], t)
+  | n + 1, t =>
+    let (p, t) := t.pt
+    let (ps, t) := Toks.pts n t
+    (p :: ps, t)
+
+def handlePoly (stream : String) (t : Toks) : Option String :=
+  match stream with
+  | "poly.points" =>
+    let (n, t) := t.nat
+    let (vs, _) := Toks.pts n t
+    some (fmtPtsDigest (Polyline.new vs).points)
+  | "poly.translated" =>
+    let (d, t) := t.pt
+    let (n, t) := t.nat
+    let (vs, _) := Toks.pts n t
+    some (fmtPtsDigest ((Polyline.new vs).translateBy d).points)
+  | _ => none
 
 end EG.Driver
